@@ -66,10 +66,12 @@ Proof. exact states_subset_proposals. Qed.
 Theorem C06_market_solvent : forall now st, MarketInv now st -> bsum (escrow st) <= balance st.
 Proof. exact market_solvent. Qed.
 
-(* an accepted withdrawal pays exactly min(requested, escrow - locked), out of `who`'s entry only *)
-Theorem C06_withdraw_exact : forall now st caller who t amt st' paid recipient,
+(* an accepted withdrawal pays exactly min(requested, escrow - locked), out of `who`'s entry only; it is
+   accepted only if the payout transfer did not fail (pf = None): a failing payout fails the whole call *)
+Theorem C06_withdraw_exact : forall now st caller who t amt pf st' paid recipient,
   MarketInv now st ->
-  withdraw_balance st caller who t amt = (st', [OK; paid; recipient]) ->
+  withdraw_balance st caller who t amt pf = (st', [OK; paid; recipient]) ->
+  pf = None /\
   paid = Z.min amt (E st who - L st who) /\ 0 <= paid /\
   E st' who = E st who - paid /\ (forall a, a <> who -> E st' a = E st a) /\
   (forall a, L st' a = L st a) /\ balance st' = balance st - paid /\
@@ -78,8 +80,8 @@ Proof. exact withdraw_exact. Qed.
 
 (* ... to the participant itself, or to a miner's owner, and only the participant (resp. the miner's
    owner or worker, as answered by the miner's ControlAddresses) can cause it *)
-Theorem C06_withdraw_auth : forall st caller who t amt st' paid recipient,
-  withdraw_balance st caller who t amt = (st', [OK; paid; recipient]) ->
+Theorem C06_withdraw_auth : forall st caller who t amt pf st' paid recipient,
+  withdraw_balance st caller who t amt pf = (st', [OK; paid; recipient]) ->
   match t with
   | TNone => False
   | TAccount => caller = who /\ recipient = who
@@ -100,7 +102,7 @@ Definition ex_ops := [
   Settle 1500 [0];
   Cron 3 2000;
   Terminate 200 true 3000 3000 [1];
-  Withdraw 101 3001 101 TAccount 999999999999 ].
+  Withdraw 101 3001 101 TAccount 999999999999 None ].
 
 Example C06_nonvacuous :
   hist_ok 0 ex_ops /\
